@@ -232,3 +232,20 @@ fn test_offsetnz() {
         assert_eq!(offsetnz(x), i);
     }
 }
+
+// Verification hooks (compiled only with `--cfg httparse_verif`): expose the block kernels.
+#[cfg(httparse_verif)]
+#[doc(hidden)]
+#[allow(missing_docs)]
+pub mod _verif_swar {
+    pub const BLOCK_SIZE: usize = super::BLOCK_SIZE;
+    pub fn uri_block(block: [u8; BLOCK_SIZE]) -> usize {
+        super::match_uri_char_8_swar(block)
+    }
+    pub fn header_value_block(block: [u8; BLOCK_SIZE]) -> usize {
+        super::match_header_value_char_8_swar(block)
+    }
+    pub fn offsetnz(block: usize) -> usize {
+        super::offsetnz(block)
+    }
+}
